@@ -199,8 +199,8 @@ func runPort(e *core.Env) {
 		"some strings carry a must-fail item (0, >65535, reversed, malformed) or an open spelling. For every accepted string ALL 65535 ports are compared between the boolean-array model and " +
 		"PortSet.Contains, RangeSet().Contains and the single-port form (Count()==1: port==First()); RangeCount()==runs, Count(), First(); Add/AddRange construction and a second Parse into the same set (union). " +
 		"Classes = (outcome, run-count bucket, representation the router would choose, touches port 1 / 65535)")
-	n := e.N(1500, 20000)
-	core.Parallel(e, "port", n, 3, func(i int) {
+	n := e.N(1500, 50000)
+	core.Parallel(e, "port", n, 2, func(i int) {
 		r := core.NewRNG(e.Seed, "c10-port", i)
 		pc := genPortString(r, true)
 		rec.Begin("port", i, trunc(pc.Str, 300))
